@@ -4,7 +4,7 @@ in a scratch worktree: the suite passes with the patch, the demonstration fails 
 import json, os, re, shutil, subprocess, sys
 ID, M, NEW = sys.argv[1], sys.argv[2], sys.argv[3]
 RACE = len(sys.argv) > 4 and sys.argv[4] == "race"     # the demonstration needs the race detector
-src = "/tmp/agents2/%s/_out/%s" % (ID, M)
+src = "%s/%s/_out/%s" % (os.environ.get("AGENTS_DIR", "/tmp/agents2"), ID, M)
 dst = "/verif/seeded/%s-%s" % (ID, NEW)
 wt = "/tmp/seedchk/%s-%s" % (ID, NEW)
 env = dict(os.environ, GOFLAGS="-mod=mod", GOPROXY="off", GOSUMDB="off", GOTOOLCHAIN="local")
@@ -59,7 +59,7 @@ if res.get("confirmed"):
     for f in ("patch.diff", "demo_test.go", "NOTES.md"):
         shutil.copy(os.path.join(src, f), os.path.join(dst, f))
     head = subprocess.check_output(["git", "-C", "/repo", "rev-parse", "HEAD"], text=True).strip()
-    meta = {"id": "%s-%s" % (ID, NEW), "breaks_property": ID, "round": 2,
-            "origin": "fresh sub-agent given only the property text and a scratch worktree (round 2, after the checks had been strengthened)",
+    meta = {"id": "%s-%s" % (ID, NEW), "breaks_property": ID, "round": int(os.environ.get("SEED_ROUND", "2")),
+            "origin": "fresh sub-agent given only the property text and a scratch worktree (later round, after the checks had been strengthened)",
             "needs_to_manifest": "see NOTES.md", "demo_placement": sub or "repository root", "confirmation": res, "base_commit": head, "detected_by": None}
     json.dump(meta, open(os.path.join(dst, "meta.json"), "w"), indent=1)
